@@ -27,7 +27,7 @@ func zzSame(a, b *Result, what string) {
 func HarnessC13Options() {
 	page := vx.Pages[vx.Choose("page", len(vx.Pages))]
 	withURL := vx.Choose("url", 2) == 1
-	urlStr := []string{"http://h.t/a?page=2", "http://h.t/story/2", "http://h.t/dir/"}[vx.Choose("urlform", 3)]
+	urlStr := []string{"http://h.t/a?page=2", "http://h.t/story/2", "http://h.t/dir/", "http://h.t/archive?page=2"}[vx.Choose("urlform", 4)]
 	mk := func() *Options {
 		o := &Options{}
 		if withURL {
